@@ -39,7 +39,7 @@ def replay_web(inputs, obl):
     k = KlongInterpreter()
     k['.system'] = {'ioloop': FakeLoop()}
     k('log::[]')
-    for nm in 'abp':
+    for nm in 'abpq':
         k(f'h{nm}::{{log::log,,"{nm}";log::log,,x;:[(x?"boom")~"1";.undefinedfn(1);"{nm}-ok"]}}')
     fn = lambda nm: k._context[KGSym('h' + nm)]
     cf = w.concurrent.futures.Future
@@ -47,8 +47,9 @@ def replay_web(inputs, obl):
         w.web.Application = lambda: App()
         w.web.AppRunner = lambda app: object()
         w.concurrent.futures.Future = FakeFuture
-        w.eval_sys_fn_create_web_server(k, "8080", {'/a': fn('a'), '/b': fn('b')}, {'/p': fn('p')})
-        for (m, r), name in ((('GET', '/a'), 'a'), (('GET', '/b'), 'b'), (('POST', '/p'), 'p')):
+        # '/a' is registered both as a GET and as a POST route, with different handlers
+        w.eval_sys_fn_create_web_server(k, "8080", {'/a': fn('a'), '/b': fn('b')}, {'/p': fn('p'), '/a': fn('q')})
+        for (m, r), name in ((('GET', '/a'), 'a'), (('GET', '/b'), 'b'), (('POST', '/p'), 'p'), (('POST', '/a'), 'q')):
             h = routes.get((m, r))
             if h is None:
                 problems.append(f"{m} {r} not registered")
@@ -152,3 +153,51 @@ def replay_webc(inputs, obl):
     if problems:
         return dict(confirmed=True, detail='; '.join(problems))
     return dict(confirmed=False, detail='.webc stops a live server once and the port stops answering')
+
+
+def replay_listen_kinds(inputs, obl):
+    """one websocket frame of every JSON kind through the real NetworkClient._listen (real io loop and klong loop, the socket replaced
+    by an object whose recv() yields the frame): the on_message callback gets the decoded value exactly once and the .ws.m handler
+    body runs exactly once (JSON null and .ws.m: the recorded known finding - only on_message is checked for it)"""
+    import asyncio
+    import json
+    import warnings
+    warnings.simplefilter('ignore')
+    from klongpy.repl import create_repl, cleanup_repl
+    from klongpy.ws.sys_fn_ws import NetworkClient
+    kinds = ['null', 'true', 'false', '0', '0.0', '7', '1.5', '""', '"s"', '[]', '[1,2]', '{}', '{"a":1}', '[null,{"b":[]}]']
+    k, loops = create_repl()
+    io_loop, klong_loop = loops[0], loops[3]
+    problems = []
+    try:
+        import websockets.exceptions          # a live session has it loaded by websockets.connect / serve
+        k('cnt::0')
+        k('.ws.m::{x;y;cnt::cnt+1;0}')
+
+        class WS:
+            def __init__(self, frame): self.frame = frame
+            async def recv(self): return self.frame
+        for text in kinds:
+            got = []
+
+            async def on_message(client, msg):
+                got.append(msg)
+            c = NetworkClient(io_loop, klong_loop, k, None)
+            c.websocket = WS(text)
+            k('cnt::0')
+            try:
+                asyncio.run_coroutine_threadsafe(c._listen(on_message), io_loop).result(10)
+            except Exception as e:
+                problems.append(f"frame {text}: _listen raised {type(e).__name__}: {e}")
+                continue
+            want = json.loads(text)
+            if len(got) != 1 or got[0] != want or type(got[0]) is not type(want):
+                problems.append(f"frame {text}: on_message was called {len(got)} time(s) with {got!r}, expected once with {want!r}")
+            n = k('cnt')
+            if text != 'null' and n != 1:
+                problems.append(f"frame {text}: the .ws.m handler body ran {n} time(s), expected once")
+    finally:
+        cleanup_repl(loops)
+    if problems:
+        return dict(confirmed=True, detail='; '.join(problems[:4]))
+    return dict(confirmed=False, detail=f"{len(kinds)} JSON kinds of frame: each reached on_message and .ws.m exactly once")
